@@ -62,10 +62,11 @@ def eval_variation(case):
     if a is None or b is None:
         res.label("excluded:not-read-as-written")
         return res
-    if len(a.exact_editions or a.variation_editions) != 1 or a.exact_editions:
-        res.label("excluded:not-a-single-candidate-variation")
-        return res
     res.nontrivial = True
+    # the enumeration comes from reporters-db: this spelling has exactly one candidate edition there
+    cand = {(x.short_name, x.reporter.short_name, x.reporter.name) for x in (a.exact_editions or a.variation_editions)}
+    if len(cand) != 1 or next(iter(cand))[0] != e:
+        res.v("variation-candidates-differ-from-database", f"{v!r}: candidates {sorted(cand)}, reporters-db maps it to the single edition {e!r}")
     if a.corrected_reporter() != e:
         res.v("variation-not-normalised", f"{v!r} -> corrected_reporter {a.corrected_reporter()!r}, database edition {e!r}")
     if not (a == b and b == a):
